@@ -163,11 +163,19 @@ class SmtpRelayClient(RelayPoolClient):
         with Timeout(self.command_timeout):
             self.client.rset()
 
+    def _address_error(self, command):
+        reply = Reply('553', '5.6.7 Address requires SMTPUTF8',
+                      command=command, address=self.address)
+        return SmtpRelayError.factory(reply)
+
     @current_command(b'MAIL')
     def _mailfrom(self, sender):
         assert self.client is not None
         with Timeout(self.command_timeout):
-            mailfrom = self.client.mailfrom(sender, auth=False)
+            try:
+                mailfrom = self.client.mailfrom(sender, auth=False)
+            except UnicodeError:
+                raise self._address_error(b'MAIL')
         if mailfrom and mailfrom.is_error():
             raise SmtpRelayError.factory(mailfrom)
         return mailfrom
@@ -176,7 +184,10 @@ class SmtpRelayClient(RelayPoolClient):
     def _rcptto(self, rcpt):
         assert self.client is not None
         with Timeout(self.command_timeout):
-            return self.client.rcptto(rcpt)
+            try:
+                return self.client.rcptto(rcpt)
+            except UnicodeError:
+                raise self._address_error(b'RCPT')
 
     @current_command(b'DATA')
     def _data(self):
